@@ -23,8 +23,10 @@
 (*  NoLeak              no goroutine of the query is alive after Close     *)
 (*  CancelFinal         after a cancellation that fired: the context's     *)
 (*                      error, or the complete fault-free result (C14)     *)
-(*  ErrorSurfaces       after a storage failure that fired: an error that  *)
-(*                      wraps the storage's error (C15)                    *)
+(*  ErrorSurfaces       after a storage failure that fired (one failing    *)
+(*                      callback: mode err; every callback from the k-th   *)
+(*                      on: mode errdown): an error that wraps the         *)
+(*                      storage's error (C15)                              *)
 (*  PanicSurfaces       after a panic that fired: an error (C13)           *)
 (*  FaultFreeOK         without a fault: the run succeeds or fails exactly *)
 (*                      like the baseline                                  *)
@@ -37,7 +39,7 @@ Trace == ndJsonDeserialize(TraceFile)
 VARIABLES l, cur, run, phase, open, closes, fired, viol, stat
 vars == <<l, cur, run, phase, open, closes, fired, viol, stat>>
 
-Stat0 == [sc |-> 0, runs |-> 0, fired |-> 0, err |-> 0, panic |-> 0, cancel |-> 0, block |-> 0, none |-> 0, qopens |-> 0]
+Stat0 == [sc |-> 0, runs |-> 0, fired |-> 0, err |-> 0, errdown |-> 0, panic |-> 0, cancel |-> 0, block |-> 0, none |-> 0, qopens |-> 0]
 Init == /\ l = 1 /\ cur = [id |-> ""] /\ run = [mode |-> "none", k |-> 0] /\ phase = "idle"
         /\ open = {} /\ closes = <<>> /\ fired = [is |-> FALSE, at |-> ""] /\ viol = {} /\ stat = Stat0
 IsEv(e) == l <= Len(Trace) /\ Trace[l].ev = e /\ l' = l + 1
@@ -75,7 +77,7 @@ RetEv ==
          v0 == IF e.timedout THEN V("ExecReturns", "Exec did not return within the bound") ELSE {}
          v1 == IF open # {} THEN V("QuerierClosedOnce", "querier still open when Exec returned") ELSE {}
          v2 == IF ~fired.is \/ e.timedout THEN {}
-               ELSE CASE run.mode = "err" -> (IF e.errkind = "injected" THEN {} ELSE V("ErrorSurfaces", "result error class: " \o e.errkind))
+               ELSE CASE run.mode \in {"err", "errdown"} -> (IF e.errkind = "injected" THEN {} ELSE V("ErrorSurfaces", "result error class: " \o e.errkind))
                       [] run.mode = "panic" -> (IF e.errkind # "none" THEN {} ELSE V("PanicSurfaces", "successful result after a panic in a storage callback"))
                       [] run.mode \in {"cancel", "block", "cancelcall"} ->
                            (IF e.errkind = "ctx" \/ (e.errkind = "none" /\ e.equal) THEN {}
